@@ -204,6 +204,9 @@ func (m *Machine) block(th *Thread, what string, pred func() bool) {
 			}
 		}
 		if len(cand) == 0 {
+			if m.fireOnIdle() {
+				continue
+			}
 			m.deadlock(th)
 		}
 		k := m.chooseEnum(len(cand))
@@ -238,9 +241,14 @@ func (m *Machine) threadExit(t *Thread) {
 		}
 	}()
 	var cand []*Thread
-	for _, o := range m.threads {
-		if o != t && m.enabled(o) {
-			cand = append(cand, o)
+	for {
+		for _, o := range m.threads {
+			if o != t && m.enabled(o) {
+				cand = append(cand, o)
+			}
+		}
+		if len(cand) > 0 || !m.fireOnIdle() {
+			break
 		}
 	}
 	if len(cand) == 0 {
